@@ -1,4 +1,5 @@
 #include "run.h"
+#include "ops_util.h"
 
 #include <algorithm>
 #include <cstring>
@@ -558,6 +559,13 @@ sj::Value counters_to_json(const Counters &c) {
   uint64_t *pa = probe_array();
   for (int i = 0; i < PR_NKINDS; i++) pr.set(probe_name(i), Value::U64(pa[i]));
   v.set("probes", pr);
+  Value mx = Value::Obj();
+  for (int e = 0; e < E_N; e++) {
+    Value row = Value::Obj();
+    for (int d = 0; d < D_N; d++) row.set(diff_name(d), Value::U64(pa[PR_MATRIX0 + e * D_N + d]));
+    mx.set(entry_name(e), row);
+  }
+  v.set("c08_matrix", mx);
   return v;
 }
 
